@@ -455,6 +455,12 @@ void write_fragment(const Args& a, double wall, int violations, const std::strin
 
 }  // namespace
 
+bool thorough() {
+  static int v = -1;
+  if (v < 0) { const char* e = getenv("VERIF_TIER"); v = (e && !strcmp(e, "thorough")) ? 1 : 0; }
+  return v == 1;
+}
+
 int main_driver(int argc, char** argv, const Target& t) {
   g_target = &t;
   Args a;
